@@ -49,7 +49,13 @@ def run_case(data):
     ch = Chooser(data)
     r = Result()
     client = ch.bool()
-    w = World(client, r, 'C22')
+    initial = None
+    if client and ch.chance(80):
+        # a client that allows the server only one or two concurrent streams: promised streams do not count
+        # until their response starts, so promises keep being accepted (and reported) at the limit
+        initial = {wire.S_MAX_CONCURRENT_STREAMS: ch.pick([1, 2])}
+        r.labels.add('client-with-low-stream-limit')
+    w = World(client, r, 'C22', local_initial=initial)
     m = w.m
     accepted = refused = crossing = 0
     pending_push_setting = []
@@ -60,11 +66,15 @@ def run_case(data):
         usable = sorted(s for s in m.streams if s not in w.tainted)
         if not client:
             op = ch.weighted([(5, 'peer-open'), (10, 'push'), (3, 'push-bad-list'), (3, 'respond'), (2, 'data'),
-                              (2, 'local-end'), (2, 'peer-end'), (3, 'peer-enable-push'), (1, 'cleanup')])
+                              (2, 'local-end'), (2, 'peer-end'), (3, 'peer-enable-push'), (1, 'cleanup'),
+                              (2, 'early-on-promised')])
         else:
             op = ch.weighted([(5, 'open'), (10, 'recv-push'), (2, 'recv-push-bad-list'), (3, 'pushed-response'),
                               (2, 'local-end'), (2, 'peer-end'), (4, 'local-enable-push'), (3, 'local-ack'),
                               (1, 'send-on-pushed'), (1, 'cleanup'), (2, 'response')])
+        if initial and op in ('local-enable-push', 'local-ack', 'recv-push-bad-list'):
+            # (these cases are about promises at the stream limit: push stays enabled and pushed responses start)
+            op = ch.pick(['pushed-response', 'pushed-response', 'recv-push'])
         if op == 'peer-open':
             w.recv_headers(w.next_peer_id(), 'final', ch.chance(64))
         elif op == 'open':
@@ -100,6 +110,27 @@ def run_case(data):
                     w.violate('push-frame-wrong', repr(o.frames))
             elif res == 'refused':
                 refused += 1
+        elif op == 'early-on-promised':
+            # a promised stream carries only a response: before its header block nothing else goes out on it -
+            # not after a refused attempt at that block either (a list without :status, refused by validation)
+            cands = [s for s in usable if m.get(s).state == M.RES_LOCAL]
+            if not cands:
+                continue
+            sid = ch.pick(cands)
+            if ch.bool():
+                o = w.s.call('send_headers', sid, [(b'x-not-a-response', b'1')])
+                r.step('refused response attempt on promised stream', sid, o.brief())
+                if o.ok:
+                    w.violate('invalid-response-accepted', repr(o.frames)[:100])
+                    break
+                if o.out:
+                    w.violate('refused-call-emitted', o.out.hex()[:40])
+                r.labels.add('refused-response-on-promised-stream')
+            if ch.bool():
+                w.send_data(sid, ch.bool())
+            else:
+                w.end_stream(sid)
+            r.labels.add('data-before-response-on-promised-stream')
         elif op == 'respond':
             cands = [s for s in usable if m.headers_position(m.get(s)) == 'response']
             if not cands:
